@@ -4,8 +4,8 @@
 import copy
 import os.path
 from collections.abc import Iterable
-from typing import (Any, Dict, Iterator, List, Optional, Tuple, TypedDict,
-                    Union, cast)
+from typing import (Any, Callable, Dict, Iterator, List, Optional, Tuple,
+                    TypedDict, Union, cast)
 
 import numpy as np
 
@@ -49,6 +49,44 @@ __all__ = ["combine_simulation_results", "SimulationResults", "Result"]
 # xxxxxxxxxxxxxxxxxxxxxxxxxxxxxxxxxxxxxxxxxxxxxxxxxxxxxxxxxxxxxxxxxxxxxxxxx
 # xxxxxxxxxxxxxxx Module Functions xxxxxxxxxxxxxxxxxxxxxxxxxxxxxxxxxxxxxxxx
 # xxxxxxxxxxxxxxxxxxxxxxxxxxxxxxxxxxxxxxxxxxxxxxxxxxxxxxxxxxxxxxxxxxxxxxxxx
+def _write_file_atomically(filename: str, mode: str,
+                            write_func: Callable[[Any], None]) -> None:
+    """
+    Write a file such that an interruption never leaves a damaged `filename`.
+
+    The content is written to a temporary file in the same folder, which then
+    replaces `filename` in a single (atomic) step. If the program is stopped
+    at any point (or `write_func` fails) then `filename` either still has its
+    previous content or it already has the complete new content. This
+    matters for the partial results of a simulation: a partial results file
+    that was only written in part cannot be loaded and the simulation could
+    not be continued.
+
+    Parameters
+    ----------
+    filename : str
+        Name of the file to write.
+    mode : str
+        The mode used to open the file ('w' or 'wb').
+    write_func : (file) -> None
+        Function that receives the opened file and writes the content.
+    """
+    tmp_filename = '{0}.tmp'.format(filename)
+    try:
+        with open(tmp_filename, mode) as output:
+            write_func(output)
+            output.flush()
+            os.fsync(output.fileno())
+        os.replace(tmp_filename, filename)
+    except BaseException:
+        # Do not leave the (incomplete) temporary file behind
+        try:
+            os.remove(tmp_filename)
+        except OSError:
+            pass
+        raise
+
+
 def combine_simulation_results(
         simresults1: "SimulationResults",
         simresults2: "SimulationResults") -> "SimulationResults":
@@ -1477,16 +1515,18 @@ class SimulationResults(JsonSerializable):
         filename : src
             Name of the file to save the SimulationResults object.
         """
+        # We use the protocol version 2, since it is the highest protocol
+        # that is supported by both python 2 and python 3. Note that we
+        # still need to be careful when unpickling, since a file pickled
+        # with python 2 might raise a UnicodeDecodeError exception when
+        # unpickled with python 3. We solve this in the
+        # `load_from_config_file` method by specifying the encoding when
+        # unpickling the file.
+        #
         # For python3 compatibility the file must be opened in binary mode
-        with open(filename, 'wb') as output:
-            # We use the protocol version 2, since it is the highest
-            # protocol that is supported by both python 2 and python
-            # 3. Note that we still need to be careful when unpickling,
-            # since a file pickled with python 2 might raise a
-            # UnicodeDecodeError exception when unpickled with python 3. We
-            # solve this in the `load_from_config_file` method by
-            # specifying the encoding when unpickling the file.
-            pickle.dump(self, output, protocol=2)
+        _write_file_atomically(
+            filename, 'wb',
+            lambda output: pickle.dump(self, output, protocol=2))
 
     def _save_to_json(self, filename: str) -> None:
         """
@@ -1498,8 +1538,8 @@ class SimulationResults(JsonSerializable):
         filename : src
             Name of the file to save the SimulationResults object.
         """
-        with open(filename, 'w') as output:
-            output.write(self.to_json())
+        _write_file_atomically(
+            filename, 'w', lambda output: output.write(self.to_json()))
 
     def save_to_file(self, filename: str) -> str:
         """
